@@ -54,7 +54,7 @@ CHECKS = {
    note="accept side on mainnet/testnet unreachable without real proof of work", ref="DESIGN.md §6 C11"),
  "C12": dict(cat=EX, engine="E3",
    technique="bounded-exhaustive enumeration of block mutations against an independent merkle routine and the four clauses of the statement",
-   text="For every transaction count 1..17 (33 thorough): all trailing-2^k duplications closed under composition (every CVE-2012-2459 mutant), the same with the copies' witnesses altered (same txid, other wtxid), every removal, adjacent swap, rotation, coinbase moves/duplicates, with the root left alone and recomputed, through validate_block and insert_block.",
+   text="For every transaction count 1..17 (65 thorough): all trailing-2^k duplications closed under composition (every CVE-2012-2459 mutant), the same with the copies' witnesses altered (same txid, other wtxid), every removal, adjacent swap, rotation, coinbase moves/duplicates, with the root left alone and recomputed, through validate_block and insert_block.",
    note="independent merkle root and txid uniqueness reference", ref="DESIGN.md §6 C12"),
  "C13": dict(cat=MC, engine="E2",
    technique="deviation-bounded exhaustive exploration of message schedules at the get_successors await point (heartbeats parked at a cfg-guarded yield point, harness as executor), duplicate detection on complete state",
@@ -78,7 +78,7 @@ CHECKS = {
    note="inter-canister calls and timers not executed natively", ref="DESIGN.md §6 C17"),
  "C18": dict(cat=EX, engine="E3",
    technique="bounded-exhaustive enumeration of HTTP responses (statuses x header sets x generated bodies incl. every prefix and UTF-8 corruption) through all transform functions",
-   text="All 10 exported transforms + the testnet endpoint x 7 statuses x ~330 header sets (all subsets of size <= 2 of 18 realistic headers, bulk sets): never trap, strip headers, keep status, body empty or canonical; extracted value equals the one known from the generating AST; identical bytes across headers, whitespace, member order, extra members; long bodies (every length to 700/1300 bytes of 1-4-byte characters) alone and inside valid documents.",
+   text="All 10 exported transforms + the testnet endpoint x 7 statuses x ~330 header sets (all subsets of size <= 2 of 18 realistic headers, bulk sets): never trap, strip headers, keep status, body empty or canonical; extracted value equals the one known from the generating AST; identical bytes across headers, whitespace, member order, extra members; long bodies (every length to 700/2600 bytes of 1-4-byte characters) alone and inside valid documents.",
    note="documents rendered from the harness's AST", ref="DESIGN.md §6 C18"),
  "C19": dict(cat=EX, engine="E3",
    technique="bounded-exhaustive enumeration of payload mutations against an independent strict transaction parser and exact round trip",
